@@ -149,3 +149,4 @@ inductive WriteStep where
   deriving Repr, DecidableEq
 
 end Rotation
+-- (round 5)
